@@ -47,9 +47,10 @@ Print Assumptions C09_c_rendering_is_pointer_form.
    built-in type words in any number or ONE name of a type in scope, possibly qualified ("ns::Cls", "std::string":
    typedef, class, struct, enum, template parameter; not the enclosing class itself), const / volatile on the type, pointer / reference chains with qualifiers at every
    level, function-pointer declarators nested to any depth, parameter lists nested to any depth (each parameter again
-   in the fragment), "(void)", a trailing const; no storage class, template argument, array suffix, attribute or
-   default value, and the declared names are identifiers that are not type names in scope.
-   Outside the fragment (template arguments, array suffixes, attributes, storage classes, default values) the round trip is evaluated by the harness on the
+   in the fragment), "(void)", a trailing const, array suffixes whose extents are expressions in the printer's canonical form;
+   no storage class, template argument, attribute or default value, and the declared names are identifiers that are not
+   type names in scope.
+   Outside the fragment (template arguments, attributes, storage classes, default values) the round trip is evaluated by the harness on the
    model and on the implementation for every generated declaration; the harness also counts how many of its cases
    fall inside the fragment (evidence: fragment:in / fragment:out). ---- *)
 
@@ -106,7 +107,8 @@ Example C09_fragment_is_inhabited :
     ["int * const * volatile p"; "const volatile unsigned int x"; "int (*fp)(int a, double * const b)"; "long long f(void) const";
      "void (* * const fpp)(int (*inner)(double * x), char c)"; "char const * const s"; "double & r"; "unsigned long long int * * & q";
      "int f(int (*cb)(const char * msg, void * data), void * data)"]%string = true
-  /\ in_both "Foo x" = false /\ in_both "int a[3]" = false /\ in_both "int x +intent(in)" = false.
+  /\ in_both "int a[3][n+1]" = true /\ in_both "double cell[24/(2*3)]" = true
+  /\ in_both "Foo x" = false /\ in_both "int a[2*-n]" = false /\ in_both "int x +intent(in)" = false.
 Proof. vm_compute. repeat split; reflexivity. Qed.
 
 (* ... and by declarations whose type is a name in scope *)
